@@ -185,10 +185,49 @@ def rule_t(F):
             return False
         return True
 
-    def must_pass(g, start_blocks, stop_blocks, what, key, loc_ln):
+    def compiler_callers(g):
+        """(caller, block, term) of every call of g from a compiler function (closures included)"""
+        out = []
+        for c in F.fns:
+            if not c.mir or not c.path.startswith("compiler::"):
+                continue
+            for bi, t in mu.calls(c):
+                if g.short in callee_names(t["func"]) and bi in c.cfg.reach:
+                    out.append((c, bi, t))
+        return out
+
+    def natural_loops(g):
+        """[(header, set of blocks of the loop)]"""
+        out = []
+        cfg = g.cfg
+        for src, h in cfg.back_edges():
+            body = cfg.can_reach([src], avoid={h}) | {h}
+            body = set(b for b in body if cfg.dominates(h, b))
+            out.append((h, body))
+        return out
+
+    def in_loop(g, bi):
+        return any(bi in body for _h, body in natural_loops(g))
+
+    def runs_per_function(g, bi, depth=0, seen=None):
+        """is the call at block bi of g executed once per element of a loop - directly, or because g is a helper that is
+        itself only called per element (the loop over the non-entry functions may live in a caller)"""
+        if in_loop(g, bi):
+            return True
+        if depth > 3:
+            return False
+        seen = seen or set()
+        if g.short in seen:
+            return False
+        cs = compiler_callers(g)
+        return bool(cs) and all(runs_per_function(c, cb, depth + 1, seen | {g.short}) for c, cb, _t in cs)
+
+    def leak_after(g, start_blocks, stop_pred, depth=0):
+        """first (fn, block) at which a non-error path from start_blocks ends without a Return having been emitted: a block
+        for which stop_pred holds (the next function begins / the closure is finished), or the return of the outermost
+        function. When g itself returns, the search continues behind every call of g in its compiler callers."""
         rb = return_blocks_of(g)
         cfg = g.cfg
-        leak = None
         for sb in start_blocks:
             stack, seen = [sb], set()
             while stack:
@@ -196,10 +235,24 @@ def rule_t(F):
                 if b in seen or b in rb or fb._error_block(g, b):
                     continue
                 seen.add(b)
-                if b in stop_blocks or g.blocks[b]["term"]["k"] == "return":
-                    leak = b
-                    break
+                if stop_pred(g, b):
+                    return (g, b)
+                if g.blocks[b]["term"]["k"] == "return":
+                    cs = compiler_callers(g) if depth < 3 else []
+                    if not cs:
+                        return (g, b)
+                    for c, _cb, t in cs:
+                        if t.get("target") is None:
+                            continue
+                        lk = leak_after(c, [t["target"]], stop_pred, depth + 1)
+                        if lk is not None:
+                            return lk
+                    continue
                 stack.extend(cfg.succ[b])
+        return None
+
+    def must_pass(g, start_blocks, stop_pred, what, key, loc_ln):
+        leak = leak_after(g, start_blocks, stop_pred)
         if leak is None:
             res.append(ok("C08.T", key, g.loc(loc_ln), "a Return is emitted on every non-error path after %s" % what))
         else:
@@ -209,21 +262,44 @@ def rule_t(F):
                            "return runs off its end into the code of the next function, which executes in the callee's frame and whose "
                            "result goes back to the caller" % (g.name, what)))
 
-    s2 = F.fn("compiler::Compiler::compile_stage_2")
-    pf = [(bi, t) for bi, t in mu.calls(s2) if "compiler::Compiler::process_function" in callee_names(t["func"])]
-    in_loop = [(bi, t) for bi, t in pf if any(s2.cfg.dominates(h, bi) for _s, h in s2.cfg.back_edges())]
-    if not in_loop:
-        raise AnchorMissing("process_function call inside the function loop of compile_stage_2")
-    hdrs = set(h for _s, h in s2.cfg.back_edges())
-    must_pass(s2, [t["target"] for _bi, t in in_loop if t.get("target") is not None], hdrs, "the body of a non-entry function",
-              "C08/T/compile_stage_2/function-body-ends-with-return", in_loop[0][1].get("ln"))
-    pc = F.fn("compiler::Compiler::process_card")
-    begins = [(bi, t) for bi, t in mu.calls(pc) if "compiler::Compiler::compile_begin" in callee_names(t["func"])]
-    ends = set(bi for bi, t in mu.calls(pc) if "compiler::Compiler::compile_end" in callee_names(t["func"]))
-    if not begins or not ends:
-        raise AnchorMissing("compile_begin / compile_end in process_card (closure bodies)")
-    must_pass(pc, [t["target"] for _bi, t in begins if t.get("target") is not None], ends, "the body of a closure",
-              "C08/T/process_card[Closure]/closure-body-ends-with-return", begins[0][1].get("ln"))
+    # (a) the bodies of the non-entry functions: every call of process_function that runs once per element of a loop
+    pf_sites = []
+    for g in F.fns:
+        if not g.mir or g.is_closure or not g.path.startswith("compiler::"):
+            continue
+        for bi, t in mu.calls(g):
+            if "compiler::Compiler::process_function" in callee_names(t["func"]) and bi in g.cfg.reach and runs_per_function(g, bi):
+                pf_sites.append((g, bi, t))
+    if not pf_sites:
+        raise AnchorMissing("process_function call inside the loop over the non-entry functions")
+    by_fn = {}
+    for g, bi, t in pf_sites:
+        by_fn.setdefault(g.short, (g, []))[1].append(t)
+
+    def loop_header(g, b):
+        return any(b == h for h, _body in natural_loops(g))
+    for _k, (g, ts) in sorted(by_fn.items()):
+        must_pass(g, [t["target"] for t in ts if t.get("target") is not None], loop_header, "the body of a non-entry function",
+                  "C08/T/%s/function-body-ends-with-return" % g.name, ts[0].get("ln"))
+    # (b) closure bodies: from compile_begin to compile_end
+    def is_end(g, b):
+        t = g.blocks[b]["term"]
+        return t["k"] == "call" and "compiler::Compiler::compile_end" in callee_names(t["func"])
+    n_cl = 0
+    for g in F.fns:
+        if not g.mir or g.is_closure or not g.path.startswith("compiler::"):
+            continue
+        begins = [(bi, t) for bi, t in mu.calls(g) if "compiler::Compiler::compile_begin" in callee_names(t["func"]) and bi in g.cfg.reach]
+        if not begins:
+            continue
+        n_cl += 1
+        name = "process_card[Closure]" if g.name == "process_card" else g.name
+        must_pass(g, [t["target"] for _bi, t in begins if t.get("target") is not None], is_end, "the body of a closure",
+                  "C08/T/%s/closure-body-ends-with-return" % name, begins[0][1].get("ln"))
+    if not n_cl:
+        raise AnchorMissing("compile_begin (closure bodies) in the compiler")
+    if not any(is_end(g, b) for g in F.fns if g.mir and g.path.startswith("compiler::") for b in range(len(g.blocks))):
+        raise AnchorMissing("compile_end (closure bodies) in the compiler")
     return res
 
 
@@ -331,9 +407,10 @@ def rule_p(F):
         res.append(ok("C08.P", key, sd.loc(anchored[0].get("ln")), "\"super.\" is only matched with %s" % sorted(set(a["name"] for a in anchored))))
     else:
         raise AnchorMissing("string search for \"super.\" in compiler::super_depth")
-    f = F.fn("compiler::Compiler::resolve_function")
     n = 0
-    for bl in [x for x in hir_walk(f.hir["body"]) if x.get("k") == "block"]:
+    sd_users = [g for g in F.fns if g.hir and not g.is_closure and g.path.startswith("compiler::") and g is not sd
+                and any(x.get("k") == "call" and "compiler::super_depth" in hir_callee(x) for x in hir_walk(g.hir["body"]))]
+    for f, bl in [(g, x) for g in sd_users for x in hir_walk(g.hir["body"]) if x.get("k") == "block"]:
         for st in bl["block"]["stmts"]:
             if st["k"] != "let" or st.get("init") is None:
                 continue
@@ -343,11 +420,11 @@ def rule_p(F):
             alias = hir_local_id(hu.strip_all(init["args"][0]))
             binds = pat_bindings(st["pat"])
             if alias is None or len(binds) != 2:
-                res.append(undecided("C08.P", "C08/P/resolve_function/site%d" % n, f.loc(st.get("ln")), "super_depth call of another shape"))
+                res.append(undecided("C08.P", "C08/P/%s/site%d" % (f.name, n), f.loc(st.get("ln")), "super_depth call of another shape"))
                 continue
             s_id = binds[1][0]
             n += 1
-            key = "C08/P/resolve_function/import#%d-alias-enters-stripped" % n
+            key = "C08/P/%s/import#%d-alias-enters-stripped" % (f.name, n)
             # occurrences of alias in the block, outside the super_depth call itself
             par = {}
             for x in hir_walk(bl):
@@ -379,7 +456,7 @@ def rule_p(F):
             else:
                 res.append(ok("C08.P", key, f.loc(st.get("ln")), "alias used only as s.unwrap_or(alias) after the namespace was shortened"))
     if n < 2:
-        raise AnchorMissing("super_depth call sites in resolve_function (found %d)" % n)
+        raise AnchorMissing("super_depth call sites in the compiler (found %d)" % n)
     res.extend(checked_depth_cuts_namespace(F))
     return res
 
@@ -417,30 +494,29 @@ def checked_depth_cuts_namespace(F):
     means (string surgery on the joined namespace, a second count) can disagree with the check."""
     res = []
     f = resolver_fn(F)
-    du = DefUse(f)
     memo = {}
-    lookups = table_lookups(f)
-    rpo = dict((b, n_) for n_, b in enumerate(f.cfg._rpo()))
-    lookups.sort(key=lambda x: rpo.get(x[0], 10 ** 6))
-    dcalls = depth_calls(F, f, du, memo)
     seen_kind = {}
-    for bi, t in lookups:
-        kind = classify_lookup(F, f, du, t, memo)
+    dus = {}
+    for _bi, _ct, _shape, lf, t, kind in classified_events(F, f, memo):
         if kind not in ("function-import", "module-import"):
             continue
         c = seen_kind.get(kind, 0)
         seen_kind[kind] = c + 1
         key = "C08/P/%s/%s%s-namespace-cut-by-the-checked-depth" % (f.name, kind, "" if c == 0 else "#%d" % c)
-        cands = [dt for dbi, dt in dcalls if bi in f.cfg.reachable_from(dbi)]
+        # decided in the function that holds the table lookup (the resolver itself or its lookup helper)
+        du = dus.setdefault(lf.short, DefUse(lf))
+        bi = next(b for b, tt in mu.calls(lf) if tt is t)
+        dcalls = depth_calls(F, lf, du, memo)
+        cands = [dt for dbi, dt in dcalls if bi in lf.cfg.reachable_from(dbi)]
         via = []
-        mir_provenance(F, f, du, t["args"][1], memo, via)
+        mir_provenance(F, lf, du, t["args"][1], memo, via)
         if not cands:
-            res.append(undecided("C08.P", key, f.loc(t.get("ln")), "no computation of the remaining namespace depth (namespace length minus "
+            res.append(undecided("C08.P", key, lf.loc(t.get("ln")), "no computation of the remaining namespace depth (namespace length minus "
                                  "super_depth) found before this lookup"))
         elif any(dt is v for dt in cands for v in via):
-            res.append(ok("C08.P", key, f.loc(t.get("ln")), "the looked-up name is built from the checked depth"))
+            res.append(ok("C08.P", key, lf.loc(t.get("ln")), "the looked-up name is built from the checked depth"))
         else:
-            res.append(bad("C08.P", key, f.loc(t.get("ln")),
+            res.append(bad("C08.P", key, lf.loc(t.get("ln")),
                            "%s checks how far the `super.`s of an import may go up (SuperLimitReached when there are more of them than "
                            "enclosing modules) but the name it then looks up is not built from that checked depth: the namespace is "
                            "shortened by other means, which need not agree with the check - e.g. an import that goes up exactly to the "
@@ -450,49 +526,62 @@ def checked_depth_cuts_namespace(F):
     return res
 
 
+def _is_namespace_stack(e):
+    """the stack of name components of the module walk: a local/field called `namespace`, or any SmallVec of &str"""
+    r = hu.strip_all(e)
+    if r is None:
+        return False
+    if r.get("k") == "path" and r["path"]["res"].get("k") == "local" and r["path"]["res"].get("name") == "namespace":
+        return True
+    if (hu.field_chain(e) or (None, [], ""))[1][-1:] == ["namespace"]:
+        return True
+    ty = (r.get("ty") or "").replace(" ", "")
+    return "SmallVec<[&" in ty and "str;" in ty
+
+
 def rule_v(F):
     res = []
-    f = F.fn("compiler::module::flatten_module")
-    anc = hu.control_ancestors(f.hir["body"])
-    pushes = []
-    for x in hir_walk(f.hir["body"]):
-        if x.get("k") == "mcall" and x["name"] == "push":
-            r = hu.strip_casts(x["recv"])
-            lid = r["path"]["res"].get("name") if r.get("k") == "path" and r["path"]["res"]["k"] == "local" else None
-            if lid == "namespace" or (hu.field_chain(x["recv"]) or (None, [], ""))[2] == "namespace":
-                pushes.append(x)
-    if len(pushes) < 2:
-        raise AnchorMissing("namespace.push in flatten_module (found %d)" % len(pushes))
-    # validation guards: if !is_name_valid(E) { return Err }
-    guards = []
-    for x in hir_walk(f.hir["body"]):
-        if x.get("k") == "if":
-            c = hu.strip_casts(x["cond"])
-            neg = False
-            if c.get("k") == "un" and c["op"] == "Not":
-                neg = True
-                c = hu.strip_casts(c["e"])
-            if c.get("k") == "call" and any(n.endswith("is_name_valid") for n in hir_callee(c)):
-                diverges = hir_strip(x["then"]).get("ty") == "!" or any(y.get("k") == "ret" for y in hir_walk(x["then"]))
-                if neg and diverges:
-                    guards.append((x, norm(c["args"][0]), anc.get(id(x), ())))
+    # every function of the module walk (compiler::module) that pushes a component onto the namespace stack - today
+    # flatten_module itself, possibly split into per-collection helpers
+    pushes_total = 0
     counters = {}
-    for p in pushes:
-        arg = norm(p["args"][0])
-        pctrl = anc.get(id(p), ())
-        # which loop is it in? label by the iterated collection
-        label = "functions" if any(True for g in guards if g[1] == arg and g[2] == pctrl) else None
-        loop_label = loop_collection(f, p, anc)
-        n = counters.get(loop_label, 0)
-        counters[loop_label] = n + 1
-        key = "C08/V/flatten_module/%s-name-validated" % (loop_label or "component%d" % n)
-        ok_guard = [g for g in guards if g[1] == arg and g[2] == pctrl and g[0]["ln"] <= p["ln"]]
-        if ok_guard:
-            res.append(ok("C08.V", key, f.loc(p["ln"]), "the name is checked with is_name_valid before it enters the namespace"))
-        else:
-            res.append(bad("C08.V", key, f.loc(p["ln"]),
-                           "a %s name is pushed onto the namespace without is_name_valid: a module named `a.b` or `super` (or an empty name) "
-                           "shadows or breaks real dotted paths during resolution" % (loop_label or "component")))
+    for f in F.fns:
+        if not f.hir or f.is_closure or not f.path.startswith("compiler::module::"):
+            continue
+        pushes = [x for x in hir_walk(f.hir["body"]) if x.get("k") == "mcall" and x["name"] == "push" and _is_namespace_stack(x["recv"])]
+        if not pushes:
+            continue
+        pushes_total += len(pushes)
+        anc = hu.control_ancestors(f.hir["body"])
+        # validation guards: if !is_name_valid(E) { return Err }
+        guards = []
+        for x in hir_walk(f.hir["body"]):
+            if x.get("k") == "if":
+                c = hu.strip_casts(x["cond"])
+                neg = False
+                if c.get("k") == "un" and c["op"] == "Not":
+                    neg = True
+                    c = hu.strip_casts(c["e"])
+                if c.get("k") == "call" and any(n.endswith("is_name_valid") for n in hir_callee(c)):
+                    diverges = hir_strip(x["then"]).get("ty") == "!" or any(y.get("k") == "ret" for y in hir_walk(x["then"]))
+                    if neg and diverges:
+                        guards.append((x, norm(c["args"][0]), anc.get(id(x), ())))
+        for p in pushes:
+            arg = norm(p["args"][0])
+            pctrl = anc.get(id(p), ())
+            loop_label = loop_collection(f, p, anc)
+            n = counters.get((f.name, loop_label), 0)
+            counters[(f.name, loop_label)] = n + 1
+            key = "C08/V/%s/%s-name-validated" % (f.name, loop_label or "component%d" % n)
+            ok_guard = [g for g in guards if g[1] == arg and g[2] == pctrl and g[0]["ln"] <= p["ln"]]
+            if ok_guard:
+                res.append(ok("C08.V", key, f.loc(p["ln"]), "the name is checked with is_name_valid before it enters the namespace"))
+            else:
+                res.append(bad("C08.V", key, f.loc(p["ln"]),
+                               "a %s name is pushed onto the namespace without is_name_valid: a module named `a.b` or `super` (or an empty name) "
+                               "shadows or breaks real dotted paths during resolution" % (loop_label or "component")))
+    if pushes_total < 2:
+        raise AnchorMissing("namespace.push in the module walk of compiler::module (found %d)" % pushes_total)
     return res
 
 
@@ -676,35 +765,32 @@ def table_lookups(f):
     return out
 
 
-def resolver_fn(F):
-    """the function that resolves a called name: Compiler::resolve_function, or (renamed) the one function of the compiler
-    module that does several jump-table lookups"""
-    f = F.fn("compiler::Compiler::resolve_function", required=False)
-    if f is not None and f.mir:
-        return f
-    cands = [g for g in F.fns if g.mir and not g.is_closure and g.path.startswith("compiler::") and len(table_lookups(g)) >= 2]
-    if len(cands) != 1:
-        raise AnchorMissing("the name resolver (a compiler function with several jump-table lookups; found %d)" % len(cands))
-    return cands[0]
+_OPT_KEEP = ("copied", "cloned", "map", "as_ref", "as_deref", "as_mut", "inspect")
 
 
-def lookup_paths(f, lookups):
-    """Path-sensitive walk over the CFG of the resolver. A lookup result is `some` or `none`; the walk follows the value
-    through moves/copies, shared borrows, discriminant reads, Option::is_none/is_some and `!`, and takes only the
-    consistent edge of a switch that tests it (so `if to.is_none() {..}` chains, `if let Some(x) = .. {return}`, `match`
-    and let-else read the same). Returns (ran_after_hit, before):
+def lookup_paths(f, events):
+    """Path-sensitive walk over the CFG of a function that does jump-table lookups.
+    events: {block: (index, shape)} - the call in that block is lookup #index; shape 'option' (the call yields
+    Some(found)/None: CaoHashMap::get itself or a helper summarised as such) or 'result-option' (Ok(Some)/Ok(None)/Err).
+    Abstract values: 'some' | 'none' | ('ok', v) | ('err',) | ('cont', v) | ('brk',) | ('i', n) | ('ref', local). The walk
+    follows a value through moves/copies, shared borrows, Ok/Some/None/Err aggregates, `?` (Try::branch and the payload
+    read), Option::copied/cloned/map/as_ref, discriminant reads, Option::is_none/is_some and `!`, and takes only the
+    consistent edge of a switch that tests it - so `if to.is_none() {..}` chains, `if let Some(x) = .. {return}`, `match`,
+    let-else and `?` all read the same. Returns (ran_after_hit, before, returns) or (None, None, None) on a state blow-up:
       ran_after_hit  {(i, j)}: lookup j is executed on a path on which the earlier lookup i had found the function
-      before         {(i, j)}: lookup i is executed before lookup j on some path"""
-    idx = dict((bi, n) for n, (bi, _t) in enumerate(lookups))
+      before         {(i, j)}: lookup i is executed before lookup j on some path
+      returns        {(outcomes, value of the return place)} over all paths that return"""
     poisoned = set()
     for b in f.blocks:
         for st in b["stmts"]:
             if st["k"] == "assign" and st["rv"]["k"] in ("ref", "rawptr") and st["rv"].get("mut") not in ("shared", "not", None):
                 poisoned.add(st["rv"]["place"]["l"])
-    ran_after_hit, before = set(), set()
+    ret_is_option = f.local_ty(0).lstrip().startswith("std::option::Option")
+    ran_after_hit, before, returns = set(), set(), set()
     stack = [(0, frozenset(), ())]
     seen = set()
     steps = 0
+    DISCR = {"some": 1, "none": 0, "ok": 0, "err": 1, "cont": 0, "brk": 1}
     while stack:
         key = stack.pop()
         if key in seen:
@@ -712,7 +798,7 @@ def lookup_paths(f, lookups):
         seen.add(key)
         steps += 1
         if steps > 200000:
-            return None, None
+            return None, None, None
         bi, st_, outs = key
         env = dict(st_)
 
@@ -722,8 +808,24 @@ def lookup_paths(f, lookups):
             else:
                 env[l] = v
 
-        def deref_target(pl):
-            """`y` / `*r` where r is a known shared borrow of y -> y"""
+        def tag(v):
+            return v if isinstance(v, str) else (v[0] if isinstance(v, tuple) else None)
+
+        def read(pl):
+            """abstract value of a place: a local, `*r` of a known shared borrow, or the Ok/Continue/Some payload of a
+            known value"""
+            proj = pl["p"]
+            v = env.get(pl["l"])
+            if not proj:
+                return v
+            if len(proj) == 1 and proj[0]["k"] == "deref":
+                return env.get(v[1]) if isinstance(v, tuple) and v[0] == "ref" else None
+            if len(proj) == 2 and proj[0]["k"] == "downcast" and proj[1]["k"] == "field" and str(proj[1].get("name")) == "0":
+                if isinstance(v, tuple) and v[0] in ("ok", "cont") and proj[0].get("variant") in ("Ok", "Continue") and len(v) > 1:
+                    return v[1]
+            return None
+
+        def target(pl):
             if not pl["p"]:
                 return pl["l"]
             if len(pl["p"]) == 1 and pl["p"][0]["k"] == "deref":
@@ -750,54 +852,78 @@ def lookup_paths(f, lookups):
                     if isinstance(op.get("val"), (int, bool)):
                         val = ("i", int(op["val"]))
                 else:
-                    src = deref_target(op["place"])
-                    val = env.get(src) if src is not None else None
+                    val = read(op["place"])
             elif k == "ref" and rv.get("mut") in ("shared", "not", None):
-                src = deref_target(rv["place"])
+                src = target(rv["place"])
                 if src is not None:
                     val = ("ref", src)
             elif k == "discr":
-                src = deref_target(rv["place"])
-                v = env.get(src) if src is not None else None
-                if v in ("some", "none"):
-                    val = ("i", 1 if v == "some" else 0)
+                v = read(rv["place"])
+                if tag(v) in DISCR:
+                    val = ("i", DISCR[tag(v)])
             elif k == "un" and rv["op"] == "Not":
                 v = env.get(op_local(rv["x"])) if op_local(rv["x"]) is not None else None
                 if isinstance(v, tuple) and v[0] == "i" and v[1] in (0, 1) and f.local_ty(pl["l"]) == "bool":
                     val = ("i", 1 - v[1])
-            elif k == "agg" and rv["agg"]["k"] == "adt" and short(rv["agg"].get("path", "")).endswith("option::Option"):
-                val = "some" if rv["agg"].get("variant") == "Some" else "none"
+            elif k == "agg" and rv["agg"]["k"] == "adt":
+                ap = short(rv["agg"].get("path", ""))
+                var = rv["agg"].get("variant")
+                if ap.endswith("option::Option"):
+                    val = "some" if var == "Some" else "none"
+                elif ap.endswith("result::Result"):
+                    if var == "Ok":
+                        inner = None
+                        if rv["ops"] and op_place(rv["ops"][0]) is not None:
+                            inner = read(op_place(rv["ops"][0]))
+                        val = ("ok", inner) if inner is not None else ("ok",)
+                    else:
+                        val = ("err",)
             setv(pl["l"], val)
         t = f.blocks[bi]["term"]
         k = t["k"]
         st_now = lambda: frozenset(env.items())
-        if k == "call":
+        if k == "return":
+            returns.add((outs, env.get(0)))
+        elif k == "call":
             if t["target"] is None:
                 continue
             dest = t["dest"]
-            if bi in idx:
-                j = idx[bi]
+            if bi in events:
+                j, shape = events[bi]
                 for i, o in outs:
                     if i != j:
                         before.add((i, j))
                         if o == "some":
                             ran_after_hit.add((i, j))
                 outs_base = tuple(x for x in outs if x[0] != j)
-                for o in ("some", "none"):
+                forks = [("some", "some"), ("none", "none")] if shape == "option" else \
+                    [(("ok", "some"), "some"), (("ok", "none"), "none"), (("err",), "none")]
+                for v, o in forks:
                     if dest["p"]:
                         env.pop(dest["l"], None)
                     else:
-                        setv(dest["l"], o)
+                        setv(dest["l"], v)
                     stack.append((t["target"], st_now(), tuple(sorted(outs_base + ((j, o),)))))
                 continue
             nm = callee_names(t["func"])
             last = nm[0].rsplit("::", 1)[-1] if nm else ""
             val = None
-            if last in ("is_none", "is_some") and any(n.endswith("Option::" + last) for n in nm) and t["args"]:
-                al = op_local(t["args"][0])
-                v = env.get(al) if al is not None else None
-                if isinstance(v, tuple) and v[0] == "ref" and env.get(v[1]) in ("some", "none"):
-                    val = ("i", 1 if (env[v[1]] == "none") == (last == "is_none") else 0)
+            a0 = t["args"][0] if t["args"] else None
+            a0v = read(op_place(a0)) if a0 is not None and op_place(a0) is not None else None
+            if isinstance(a0v, tuple) and a0v[0] == "ref":
+                a0v = env.get(a0v[1])
+            if last in ("is_none", "is_some") and any(n.endswith("Option::" + last) for n in nm):
+                if a0v in ("some", "none"):
+                    val = ("i", 1 if (a0v == "none") == (last == "is_none") else 0)
+            elif last in _OPT_KEEP and any("Option::" in n for n in nm) and a0v in ("some", "none"):
+                val = a0v
+            elif last == "branch" and any(n.endswith("Try::branch") or n.endswith("::branch") for n in nm):
+                if tag(a0v) == "ok":
+                    val = ("cont",) + tuple(a0v[1:])
+                elif tag(a0v) == "err":
+                    val = ("brk",)
+            elif last == "from_residual":
+                val = "none" if ret_is_option else ("err",)
             if dest["p"]:
                 env.pop(dest["l"], None)
             else:
@@ -816,37 +942,124 @@ def lookup_paths(f, lookups):
                 stack.append((n_, st_now(), outs))
         elif k in ("goto", "drop", "assert"):
             stack.append((t["target"], st_now(), outs))
-    return ran_after_hit, before
+    return ran_after_hit, before, returns
+
+
+def lookup_helper_shape(F, h, memo):
+    """A crate-local helper that does exactly one jump-table lookup and hands its result on: it returns Some(..) exactly on
+    the paths on which its lookup hit -> 'option'; Ok(Some(..)) exactly on those, Ok(None)/Err(..) otherwise ->
+    'result-option'. None when the helper is something else."""
+    key = ("shape", h.short)
+    if key in memo:
+        return memo[key]
+    memo[key] = None
+    ls = table_lookups(h)
+    if len(ls) != 1:
+        return None
+    _r, _b, returns = lookup_paths(h, {ls[0][0]: (0, "option")})
+    if not returns:
+        return None
+    hit = set(v for outs, v in returns if (0, "some") in outs)
+    nohit = set(v for outs, v in returns if (0, "some") not in outs)
+    shape = None
+    if hit and hit <= {"some"} and nohit <= {"none"}:
+        shape = "option"
+    elif hit and hit <= {("ok", "some")} and nohit <= {("ok", "none"), ("err",)}:
+        shape = "result-option"
+    memo[key] = shape
+    return shape
+
+
+def lookup_events(F, f, memo):
+    """the lookups of the resolver f in execution order: [(block in f, call term in f, shape, lookup fn, lookup term)] -
+    a direct CaoHashMap::get on the function table, or a call of a helper summarised by lookup_helper_shape"""
+    out = []
+    direct = dict(table_lookups(f))
+    for bi, t in mu.calls(f):
+        if bi not in f.cfg.reach:
+            continue
+        if bi in direct:
+            out.append((bi, t, "option", f, t))
+            continue
+        for n in callee_names(t["func"]):
+            h = F.fn(n, required=False)
+            if h is not None and h.mir and h is not f and h.path.startswith("compiler::") and not h.is_closure:
+                shape = lookup_helper_shape(F, h, memo)
+                if shape is not None:
+                    out.append((bi, t, shape, h, table_lookups(h)[0][1]))
+                    break
+    rpo = dict((b, n) for n, b in enumerate(f.cfg._rpo()))
+    out.sort(key=lambda x: rpo.get(x[0], 10 ** 6))
+    return out
+
+
+def resolver_fn(F):
+    """the function that resolves a called name: Compiler::resolve_function, or (renamed) the one function of the compiler
+    module that does several jump-table lookups (itself or through lookup helpers)"""
+    f = F.fn("compiler::Compiler::resolve_function", required=False)
+    if f is not None and f.mir:
+        return f
+    memo = {}
+    cands = [g for g in F.fns if g.mir and not g.is_closure and g.path.startswith("compiler::") and len(lookup_events(F, g, memo)) >= 2]
+    if len(cands) != 1:
+        raise AnchorMissing("the name resolver (a compiler function with several jump-table lookups; found %d)" % len(cands))
+    return cands[0]
 
 
 LOOKUP_ORDER = ["literal", "namespace", "function-import", "module-import"]
+_TRANSPARENT_CALLS = {"deref", "as_ref", "as_str", "borrow", "as_bytes"}
 
 
-def classify_lookup(F, f, du, t, memo):
+def _is_name_param(f, l):
+    return "str" in f.local_ty(l).lower()
+
+
+def key_atoms(F, f, du, t, memo, call=None):
+    """(atoms, split) of the key of the table lookup `t` in function f, in terms of the resolver: when f is a lookup helper
+    called from the resolver `call = (resolver, du of resolver, call term)`, each parameter atom of the helper is replaced
+    by the data slice of the argument passed for it. split: the called name itself (not the alias found for it) goes
+    through a str split on the way."""
+    via = []
+    atoms = mir_provenance(F, f, du, t["args"][1], memo, via)
+
+    def to_resolver(at):
+        if call is None:
+            return set(at)
+        rf, rdu, ct = call
+        out = set()
+        for a in at:
+            if a[0] == "param":
+                if a[1] - 1 < len(ct["args"]):
+                    out |= mir_provenance(F, rf, rdu, ct["args"][a[1] - 1], memo)
+            else:
+                out.add(a)
+        return out
+    rf = call[0] if call is not None else f
+    split = False
+    for c in via:
+        nm = callee_names(c["func"])
+        if nm and "split" in nm[0].rsplit("::", 1)[-1] and c["args"]:
+            a0 = to_resolver(mir_provenance(F, f, du, c["args"][0], memo))
+            if any(x[0] == "param" and _is_name_param(rf, x[1]) for x in a0) and ("field", "current_imports") not in a0:
+                split = True
+    return to_resolver(atoms), split, rf
+
+
+def classify_lookup(F, f, du, t, memo, call=None):
     """which of the documented lookups a jump-table lookup is, by what its key is computed from:
        literal          the called name as given (nothing but the name parameter)
        namespace        the current namespace and the name; no import involved
        function-import  an entry of the imports found under the whole name
        module-import    an entry of the imports found under the part of the name before a `.` (the name is split)"""
-    via = []
-    atoms = mir_provenance(F, f, du, t["args"][1], memo, via)
+    atoms, split, rf = key_atoms(F, f, du, t, memo, call)
     fields = set(a[1] for a in atoms if a[0] == "field")
     calls_ = set(a[1] for a in atoms if a[0] == "call")
-    params = set(a[1] for a in atoms if a[0] == "param")
-    name_params = set(l for l in params if "str" in f.local_ty(l).lower())
-    # the called name itself is split (not the alias found for it)
-    split = False
-    for c in via:
-        nm = callee_names(c["func"])
-        if nm and "split" in nm[0].rsplit("::", 1)[-1] and c["args"]:
-            a0 = mir_provenance(F, f, du, c["args"][0], memo)
-            if any(x[0] == "param" and x[1] in name_params for x in a0) and ("field", "current_imports") not in a0:
-                split = True
+    name_params = set(a[1] for a in atoms if a[0] == "param" and _is_name_param(rf, a[1]))
     if "current_imports" in fields:
         kind = "module-import" if split else "function-import"
     elif "current_namespace" in fields:
         kind = "namespace"
-    elif name_params and not fields and not (calls_ - {"deref", "as_ref", "as_str", "borrow"}):
+    elif name_params and not (fields - {"jump_table"}) and not (calls_ - _TRANSPARENT_CALLS):
         kind = "literal"
     else:
         kind = "?"
@@ -855,18 +1068,31 @@ def classify_lookup(F, f, du, t, memo):
     return kind
 
 
+def classified_events(F, f, memo):
+    """lookup events of the resolver with their kind: [(block, call term, shape, lookup fn, lookup term, kind)]"""
+    rdu = DefUse(f)
+    out = []
+    dus = {}
+    for bi, ct, shape, lf, lt in lookup_events(F, f, memo):
+        if lf is f:
+            kind = classify_lookup(F, f, rdu, lt, memo)
+        else:
+            du = dus.setdefault(lf.short, DefUse(lf))
+            kind = classify_lookup(F, lf, du, lt, memo, (f, rdu, ct))
+        out.append((bi, ct, shape, lf, lt, kind))
+    return out
+
+
 def rule_o(F):
     res = []
     f = resolver_fn(F)
-    lookups = table_lookups(f)
-    if len(lookups) < 2:
+    memo = {}
+    evs = classified_events(F, f, memo)
+    if len(evs) < 2:
         raise AnchorMissing("jump_table.get calls in %s" % f.name)
-    # number the lookups in execution order (reverse post-order of the CFG)
-    rpo = dict((b, n) for n, b in enumerate(f.cfg._rpo()))
-    lookups.sort(key=lambda x: rpo.get(x[0], 10 ** 6))
     key_miss = "C08/O/%s/later-lookups-only-on-miss" % f.name
     key_order = "C08/O/%s/documented-order" % f.name
-    ran_after_hit, before = lookup_paths(f, lookups)
+    ran_after_hit, before, _returns = lookup_paths(f, dict((e[0], (n, e[2])) for n, e in enumerate(evs)))
     if ran_after_hit is None:
         res.append(undecided("C08.O", key_miss, f.loc(), "too many paths through %s" % f.name))
         res.append(undecided("C08.O", key_order, f.loc(), "too many paths through %s" % f.name))
@@ -876,13 +1102,11 @@ def rule_o(F):
         for j in sorted(set(j for _i, j in ran_after_hit)):
             firsts = sorted(i for i, j2 in ran_after_hit if j2 == j)
             msgs.append("lookup #%d (line %s) runs even if an earlier lookup (#%s) already found the function" %
-                        (j + 1, lookups[j][1].get("ln"), ", #".join(str(i + 1) for i in firsts)))
+                        (j + 1, evs[j][1].get("ln"), ", #".join(str(i + 1) for i in firsts)))
         res.append(bad("C08.O", key_miss, f.loc(), "; ".join(msgs)))
     else:
-        res.append(ok("C08.O", key_miss, f.loc(), "%d lookups; on every path a later one is reached only after all earlier ones missed" % len(lookups)))
-    du = DefUse(f)
-    memo = {}
-    kinds = [classify_lookup(F, f, du, t, memo) for _bi, t in lookups]
+        res.append(ok("C08.O", key_miss, f.loc(), "%d lookups; on every path a later one is reached only after all earlier ones missed" % len(evs)))
+    kinds = [e[5] for e in evs]
     want = LOOKUP_ORDER
     swapped = sorted((i, j) for i, j in before if i > j)
     if kinds == want and not swapped:
@@ -915,27 +1139,53 @@ def rule_h(F):
         lid = hir_local_id(hu.strip_all(e["args"][0]))
         if lid in params:
             pidx = params.index(lid)
-            # every call site passes `<vec>.len()` of the vector the result is pushed onto
+            # every call site passes `<vec>.len()` of the vector the result is pushed onto: directly
+            # (`out.push(f(out.len(), ..))`) or through single-assignment temporaries (`let i = out.len(); let ir = f(i, ..);
+            # out.push(ir)`) with nothing else done to the vector between reading its length and the push
+            FN = "compiler::module::function_to_function_ir"
             sites = 0
+            calls = 0
             good = True
             why = ""
             for f in F.fns:
                 if not f.hir or f.is_closure:
                     continue
-                for x in hir_walk(f.hir["body"]):
-                    if x.get("k") == "mcall" and x["name"] == "push" and x["args"]:
-                        c = hu.strip_all(x["args"][0])
-                        if c.get("k") == "call" and "compiler::module::function_to_function_ir" in hir_callee(c):
-                            sites += 1
-                            a = hu.strip_all(c["args"][pidx])
-                            recv = hir_local_id(hu.strip_all(x["recv"]))
-                            if not (a.get("k") == "mcall" and a["name"] == "len" and hir_local_id(hu.strip_all(a["recv"])) == recv and recv is not None):
-                                good = False
-                                why = "the index argument at %s is not `<out>.len()` of the vector the function is pushed onto" % f.loc(c["ln"])
-                    elif x.get("k") == "call" and "compiler::module::function_to_function_ir" in hir_callee(x):
-                        pass
-            calls = sum(1 for f in F.fns if f.hir and not f.is_closure for x in hir_walk(f.hir["body"])
-                        if x.get("k") == "call" and "compiler::module::function_to_function_ir" in hir_callee(x))
+                cs = [x for x in hir_walk(f.hir["body"]) if x.get("k") == "call" and FN in hir_callee(x)]
+                if not cs:
+                    continue
+                inits = hu.let_inits(f)
+                vec_calls = [x for x in hir_walk(f.hir["body"]) if x.get("k") == "mcall" and hir_local_id(hu.strip_all(x["recv"])) is not None]
+                for c in cs:
+                    calls += 1
+                    # where does the result go?
+                    push = None
+                    for x in vec_calls:
+                        if x["name"] != "push" or not x["args"]:
+                            continue
+                        a = hu.strip_all(x["args"][0])
+                        if a is c:
+                            push = x
+                        else:
+                            lid = hir_local_id(a)
+                            if lid is not None and len(inits.get(lid, [])) == 1 and hu.strip_all(inits[lid][0]) is c:
+                                push = x
+                    if push is None:
+                        continue
+                    sites += 1
+                    recv = hir_local_id(hu.strip_all(push["recv"]))
+                    a = hu.strip_all(c["args"][pidx])
+                    lid = hir_local_id(a)
+                    if lid is not None and len(inits.get(lid, [])) == 1:
+                        a = hu.strip_all(inits[lid][0])
+                    if not (a.get("k") == "mcall" and a["name"] == "len" and hir_local_id(hu.strip_all(a["recv"])) == recv and recv is not None):
+                        good = False
+                        why = "the index argument at %s is not `<out>.len()` of the vector the function is pushed onto" % f.loc(c["ln"])
+                        continue
+                    touched = [x for x in vec_calls if hir_local_id(hu.strip_all(x["recv"])) == recv and x is not push and x is not a
+                               and x["name"] not in ("len", "capacity", "is_empty") and a["ln"] <= x["ln"] <= push["ln"]]
+                    if touched:
+                        good = False
+                        why = "the vector is modified (%s at %s) between reading its length and pushing the function" % (touched[0]["name"], f.loc(touched[0]["ln"]))
             if sites == 0 or calls != sites:
                 res.append(undecided("C08.H", key, g.loc(), "function_to_function_ir is not (only) called as `out.push(function_to_function_ir(out.len(), ..))`"))
             elif good:
@@ -958,6 +1208,7 @@ def arity_param_is_fed_with_arity(F, pidx):
     closure object being called)"""
     from rules.c06 import expr_leaves
     n = 0
+    hir_undecided = []
     for g in F.fns:
         if not g.hir or g.is_closure:
             continue
@@ -966,6 +1217,21 @@ def arity_param_is_fed_with_arity(F, pidx):
                 n += 1
                 lv = expr_leaves(g, x["args"][pidx])
                 if not any(l.startswith("field:") and l.endswith("arity") for l in lv):
+                    hir_undecided.append(g)
+    if hir_undecided:
+        # the value reaches the call through pattern bindings / a helper that classifies the callee: decide on the MIR
+        # data slice of the argument at every call site of those functions
+        memo = {}
+        for g in hir_undecided:
+            if not g.mir:
+                return False
+            du = DefUse(g)
+            sites = [t for _bi, t in mu.calls(g) if "vm::instr_execution::push_call_frame" in callee_names(t["func"])]
+            if not sites:
+                return False
+            for t in sites:
+                atoms = mir_provenance(F, g, du, t["args"][pidx], memo)
+                if ("field", "arity") not in atoms:
                     return False
     return n > 0
 
@@ -1016,22 +1282,33 @@ def offset_is_len_minus_arity(F, f, du, l):
             rv = d[3]["rv"]
             if rv["k"] in ("use", "cast"):
                 p = op_place(rv["op"])
+                # `(a - b)` with overflow checks: the value is field 0 of the (value, overflowed) pair of SubWithOverflow
+                if p is not None and len(p["p"]) == 1 and p["p"][0]["k"] == "field" and str(p["p"][0].get("name")) == "0":
+                    bd = du.defs.get(p["l"], [])
+                    if len(bd) == 1 and bd[0][2] == "assign" and not bd[0][3]["place"]["p"] and bd[0][3]["rv"]["k"] == "bin" \
+                            and bd[0][3]["rv"]["op"] in ("SubWithOverflow", "CheckedSub"):
+                        minuend, subtrahend = bd[0][3]["rv"]["l"], bd[0][3]["rv"]["r"]
+                        a0, a1 = op_local(minuend), op_local(subtrahend)
+                        return _len_minus_arity_operands(F, du, a0, a1)
                 l = _payload_place(p) if p is not None else None
                 continue
             if rv["k"] == "bin" and rv["op"] in ("Sub", "SubUnchecked"):
                 minuend, subtrahend = rv["l"], rv["r"]
             else:
                 return False
-        a0, a1 = op_local(minuend), op_local(subtrahend)
-        if a0 is None or a1 is None:
-            return False
-        kind, payload = du.trace_back(a0)
-        if not (kind == "call" and any(n.endswith("ValueStack::len") for n in callee_names(payload["func"]))):
-            return False
-        # the subtrahend must be the arity parameter (not a constant, not another local)
-        kind, payload = du.trace_back(a1)
-        return kind == "arg" and arity_param_is_fed_with_arity(F, payload - 1)
+        return _len_minus_arity_operands(F, du, op_local(minuend), op_local(subtrahend))
     return False
+
+
+def _len_minus_arity_operands(F, du, a0, a1):
+    if a0 is None or a1 is None:
+        return False
+    kind, payload = du.trace_back(a0)
+    if not (kind == "call" and any(n.endswith("ValueStack::len") for n in callee_names(payload["func"]))):
+        return False
+    # the subtrahend must be the arity parameter (not a constant, not another local)
+    kind, payload = du.trace_back(a1)
+    return kind == "arg" and arity_param_is_fed_with_arity(F, payload - 1)
 
 
 def rule_f(F):
